@@ -535,8 +535,7 @@ typedef unsigned long uintptr_t;
 #define CHK_SLEN_MAX_NOSPC_CLEAR(func, slen, max)                              \
     if (unlikely(slen > dmax)) {                                               \
         errno_t error = slen > max ? ESLEMAX : ESNOSPC;                        \
-        handle_error(dest,                                                     \
-                     _BOS_KNOWN(dest) ? BOS(dest) : strnlen_s(dest, dmax),     \
+        handle_error(dest, _BOS_KNOWN(dest) ? BOS(dest) : dmax,                \
                      func ": " _XSTR(slen) " exceeds max", error);             \
         return RCNEGATE(error);                                                \
     }
